@@ -10,6 +10,9 @@ package main
 //                      callable — from its own goroutine and from one it spawned: the process survives, Link
 //                      returns the decode error, no CallClosure request with an empty id is written    (C06, C16, C17)
 //   value-for-error-only  a response with a superfluous value for a function that returns only an error is accepted (C17, C09)
+//   pipelined-big-args a peer keeps many well-formed requests with large arguments in flight (never waiting for an
+//                      answer): every request is answered with the result for ITS OWN arguments, the process
+//                      survives and the link stays up                                                    (C06, C08, C09)
 //   error-response-write-fails  the handler returns an error and the transport refuses the response: Link returns
 //                      the transport's error                                                            (C16, C03)
 
@@ -30,6 +33,13 @@ import (
 type rpLocal struct{}
 
 func (rpLocal) Fail(ctx context.Context) (int, error) { return 7, errors.New("handler failed") }
+func (rpLocal) Sum(ctx context.Context, xs []int64) (int64, error) {
+	var t int64
+	for _, x := range xs {
+		t += x
+	}
+	return t, nil
+}
 func (rpLocal) Each(ctx context.Context, n int, spawn bool, cb func(ctx context.Context, i int) (int, error)) (string, error) {
 	var out []string
 	var mu sync.Mutex
@@ -60,7 +70,7 @@ type rpRemote struct {
 	Nop  func(ctx context.Context) error
 }
 
-var rawPeerScenarios = []string{"value-for-error-only", "dup-responses", "bad-response-value", "bad-closure-id", "bad-closure-id-spawned", "error-response-write-fails"}
+var rawPeerScenarios = []string{"value-for-error-only", "dup-responses", "bad-response-value", "bad-closure-id", "bad-closure-id-spawned", "error-response-write-fails", "pipelined-big-args"}
 
 func subRawPeer(args []string) {
 	sc := args[0]
@@ -260,6 +270,55 @@ func subRawPeer(args []string) {
 				fmt.Printf("BAD a CallClosure request for a closure id nobody issued was written: %s\n", fr)
 			}
 		}
+	case "pipelined-big-args":
+		// two argument layouts of the same byte length; requests alternate between them and are written back to back
+		const n, elems = 80, 40000
+		mk := func(d string) string { return "[" + strings.TrimSuffix(strings.Repeat(d+",", elems), ",") + "]" }
+		lay := [2]string{mk("1"), mk("7")}
+		want := [2]int64{elems, 7 * elems}
+		for i := 0; i < n; i++ {
+			in.Put([]byte(fmt.Sprintf(`{"call":"p%03d","function":"Sum","args":[%s]}`, i, lay[i%2])))
+		}
+		seen := map[string]bool{}
+		for len(seen) < n {
+			type res struct {
+				b   []byte
+				err error
+			}
+			ch := make(chan res, 1)
+			go func() { b, err := out.Get(); ch <- res{b, err} }()
+			var fr []byte
+			select {
+			case r := <-ch:
+				if r.err != nil {
+					fmt.Printf("BAD %d of %d pipelined requests answered, then the response stream ended: %v\n", len(seen), n, r.err)
+					return
+				}
+				fr = r.b
+			case err := <-linkErr:
+				fmt.Printf("BAD %d well-formed pipelined requests ended the link: %v\n", n, err)
+				return
+			case <-time.After(watchdog):
+				fmt.Printf("BAD only %d of %d pipelined requests were answered\n", len(seen), n)
+				return
+			}
+			var resp struct {
+				Call  string          `json:"call"`
+				Value json.RawMessage `json:"value"`
+				Err   string          `json:"err"`
+			}
+			json.Unmarshal(fr, &resp)
+			var i int
+			if _, err := fmt.Sscanf(resp.Call, "p%03d", &i); err != nil || i < 0 || i >= n || seen[resp.Call] {
+				fmt.Printf("BAD unexpected or duplicate response %.80s\n", fr)
+				return
+			}
+			seen[resp.Call] = true
+			if resp.Err != "" || string(resp.Value) != fmt.Sprint(want[i%2]) {
+				fmt.Printf("BAD pipelined request %s (sum of %d x %d) was answered with value %s err %q: it ran with another request's arguments\n", resp.Call, elems, want[i%2]/elems, resp.Value, resp.Err)
+				return
+			}
+		}
 	case "error-response-write-fails":
 		atomic.StoreInt32(&failWrite, 1)
 		in.Put([]byte(`{"call":"c1","function":"Fail","args":[]}`))
@@ -285,8 +344,9 @@ func runRawPeer(rep *Report, prop string) {
 		"C05": {"dup-responses", "bad-closure-id-spawned"},
 		"C15": {"dup-responses", "nil-hooks-precancelled"},
 		"C14": {"nil-hooks-precancelled"},
-		"C09": {"bad-response-value", "value-for-error-only"},
-		"C06": {"nil-hooks-precancelled", "bad-response-value", "bad-closure-id", "bad-closure-id-spawned"},
+		"C09": {"bad-response-value", "value-for-error-only", "pipelined-big-args"},
+		"C08": {"pipelined-big-args"},
+		"C06": {"nil-hooks-precancelled", "bad-response-value", "bad-closure-id", "bad-closure-id-spawned", "pipelined-big-args"},
 		"C16": {"bad-closure-id", "error-response-write-fails"},
 		"C17": {"bad-closure-id", "value-for-error-only"},
 		"C03": {"error-response-write-fails"},
